@@ -79,20 +79,24 @@ static u16 f2h(T v)
     return u16(s | r);
 }
 
-// distance (in units of 2^-29 ulp safety) from a long double value to the nearest binary16 rounding boundary
-static bool ld_decisive(long double L)
+// Is the value clear of every binary16 rounding boundary (midpoints between neighbouring halves, 2^-25 and 65520)?
+// "Clear" means: further than 2^-26 binary16-ulp away.  A glibc result with a relative error below 2^-45 (double: < 1 ulp = 2^-52,
+// long double: 2^-63) moves by less than 2^-34 binary16-ulp, so its rounding equals the rounding of the exact value.
+template <class T>
+static bool decisive(T L)
 {
     if (L != L) return true;
-    long double a = fabsl(L);
+    T a = std::fabs(L);
     if (a == 0 || std::isinf(a)) return true;
-    if (a >= 65536.0L) return true;                 // rounds to infinity, boundary 65520 is 16 away
+    if (a >= T(65536)) return true;                 // rounds to infinity, boundary 65520 is 16 away
     int e = std::ilogb(a);
     if (e < -14) e = -14;
-    long double t = scalbnl(a, 10 - e);             // in ulps, < 2048
-    long double fr = t - floorl(t);
-    long double d = fabsl(fr - 0.5L);
-    return d > 1.0L / 67108864.0L; /* 2^-26 */                            // glibc long double is good to ~2^-60 relative; t < 2^11
+    T t = std::scalbn(a, 10 - e);                   // in binary16 ulps, < 2048; exact
+    T fr = t - std::floor(t);
+    T d = std::fabs(fr - T(0.5));
+    return d > T(1) / T(67108864);                  // 2^-26
 }
+static bool ld_decisive(long double L) { return decisive<long double>(L); }
 
 static inline int hkey(u16 b) { int m = b & 0x7FFF; return (b & 0x8000) ? -m : m; }
 
@@ -578,23 +582,23 @@ static bool fast_ref(int k, u16 x, u16 y, u16& out)
     {
         if (h_isinf(x) || h_isinf(y)) { out = 0x7C00; return true; }
         if (h_isnan(x) || h_isnan(y)) { out = 0x7E00; return true; }
-        long double L = sqrtl((long double)dx * dx + (long double)dy * dy);
-        if (!ld_decisive(L)) return false;
-        out = f2h<long double>(L);
+        double L = std::sqrt(dx * dx + dy * dy);      // squares exact (22 bits), no overflow/underflow in double
+        if (!decisive<double>(L)) return false;
+        out = f2h<double>(L);
         return true;
     }
     case B_POW:
     {
-        long double L = powl((long double)dx, (long double)dy);
-        if (!ld_decisive(L)) return false;
-        out = f2h<long double>(L);
+        double L = std::pow(dx, dy);
+        if (!decisive<double>(L)) return false;
+        out = f2h<double>(L);
         return true;
     }
     case B_ATAN2:
     {
-        long double L = atan2l((long double)dx, (long double)dy);
-        if (!ld_decisive(L)) return false;
-        out = f2h<long double>(L);
+        double L = std::atan2(dx, dy);
+        if (!decisive<double>(L)) return false;
+        out = f2h<double>(L);
         return true;
     }
     case B_FMOD: out = f2h<double>(std::fmod(dx, dy)); return true;             // exact operations on exact operands
@@ -693,7 +697,7 @@ static void do_binary(int k, u16 x, u16 y, int mode)
         {
             o = ref2(b_mp[k], x, y);
             have_mp = true;
-            if (!same_h(fr, o.a)) ref_error(std::string(bnames[k]) + "(" + hx(x) + ", " + hx(y) + "): MPFR=" + hx(o.a) + " fast reference (glibc long double)=" + hx(fr));
+            if (!same_h(fr, o.a)) ref_error(std::string(bnames[k]) + "(" + hx(x) + ", " + hx(y) + "): MPFR=" + hx(o.a) + " fast reference (glibc double)=" + hx(fr));
             a = o.a;
             kind = judge(r, a, b_ulp[k], o.special);
         }
